@@ -114,6 +114,7 @@ def gen_scn(r, k, forced=None):
     c["gfreq"] = f.get("gfreq", r.choice([1, 2, 3, 4, 6])) if c["gfreq_explicit"] else c["freq"]
     c["it0"] = r.randint(0, 9) if r.random() < f.get("p_it0", 0.3) else 0
     c["binary"] = r.random() < 0.35          # format of the state files (formatted text or binary stream)
+    c["tsf"] = r.choice([2, 3, 5]) if r.random() < f.get("p_tsf", 0.15) else 1     # timeStepFactor of the bias
     c["medium"] = "mem" if r.random() < 0.4 else "file"    # read back from the file, or from a memory buffer / a string
     if r.random() < f.get("p_bigstep", 0.15):
         # step numbers beyond int and beyond the integers a double holds exactly
@@ -393,6 +394,8 @@ def config_text(c, geom=None, rebin=False, par=None):
         L.append("  stepZeroData on")
     if c.get("eb"):
         L += ["  ebMeta on", "  targetDistFile %s" % target_file_name(c), "  ebMetaEquilSteps %d" % c["eb"]["equil"]]
+    if c.get("tsf", 1) > 1:
+        L.append("  timeStepFactor %d" % c["tsf"])
     L += ["  " + t for t in c.get("meta_extra", [])]
     L += ["}", "EOF", "show atomf 0 energy 0 af 1 bias 1"]
     if c.get("eb"):
@@ -552,7 +555,9 @@ def model_case(c, xs, dump=True):
     else:
         p += ["0", "0", "0"]
     st = steps_of(c)
-    p.append(str(len(c["events"])))
+    tsf = c.get("tsf", 1)
+    asleep = sum(1 for t in st if t[0] % tsf != 0)
+    p.append(str(len(c["events"]) - asleep))
     n = 0
     for e in c["events"]:
         if e[0] == "save":
@@ -577,7 +582,8 @@ def model_case(c, xs, dump=True):
                 p += [V.hexf(lo), V.hexf(up), str(nx)]
             continue
         it, rel, cont, _ = st[n]
-        p += ["S", str(it), str(rel), "1" if cont else "0"] + [V.hexf(t) for xv in xs[n] for t in xv]
+        if it % tsf == 0:       # the bias sleeps at the other steps: they are not events of its history
+            p += ["S", str(it), str(rel), "1" if cont else "0"] + [V.hexf(t) for xv in xs[n] for t in xv]
         n += 1
     return " ".join(p)
 
@@ -916,8 +922,10 @@ def oracle(c, impl, traj):
     st = steps_of(c)
     tab, pend = [], []
     facts = {"deposits": 0, "projections": 0, "outside_steps": 0, "expansions": 0, "saves": 0, "wt_outside": 0,
-             "wrapped_steps": 0, "restarts": 0, "rebins": 0, "antipodal_steps": 0, "ebmeta_deposits": 0, "reloads": 0, "rebins_from_grids": 0, "bound_checks": 0, "bound_max_ratio": 0.0, "pmf_files": 0, "reconfs": 0, "hetero_steps": 0}
+             "wrapped_steps": 0, "restarts": 0, "rebins": 0, "antipodal_steps": 0, "ebmeta_deposits": 0, "reloads": 0, "rebins_from_grids": 0, "bound_checks": 0, "bound_max_ratio": 0.0, "pmf_files": 0, "reconfs": 0, "hetero_steps": 0, "asleep_steps": 0}
     cur = par0(c)          # the hill parameters of the current run
+    tsf = c.get("tsf", 1)
+    last_awake = None
     alive2 = second_alive(c)     # while a second bias acts on the same variables the applied force is the sum of both
     restarted = False
     off_at_restart = []
@@ -957,6 +965,7 @@ def oracle(c, impl, traj):
                 return ("pmf:file-name", "free-energy file %d is named %r, expected %r" % (k, dumps[k][0], name), max(n, 0)), facts
             continue
         if e[0] in ("restart", "rebin", "reload", "reconf", "breload"):
+            last_awake = None
             facts["restarts"] += 1
             if e[0] in ("reload", "breload"):
                 facts["reloads"] += 1
@@ -980,6 +989,17 @@ def oracle(c, impl, traj):
         n += 1
         it, rel, cont, zs = st[n]
         im = impl[n]
+        if it % tsf != 0:
+            # the bias sleeps: no hill, energy and forces are those of its last update (if this instance had one)
+            facts["asleep_steps"] += 1
+            if traj and traj[0][0] == it and (n + 1 == len(st) or st[n + 1][0] != it) and (n == 0 or st[n - 1][0] != it):
+                return ("schedule:hill-while-asleep", "step %d (it=%d): a hill was added at a step that is not a multiple of "
+                        "timeStepFactor %d" % (n, it, tsf), n), facts
+            if last_awake is not None and (im["E"] != last_awake["E"] or im["F"] != last_awake["F"] or im["hills"] != last_awake["hills"]):
+                return ("asleep:bias-changed", "step %d (it=%d): the bias sleeps (timeStepFactor %d) but its energy/forces/hills "
+                        "changed: %r %s -> %r %s" % (n, it, tsf, last_awake["E"], last_awake["F"], im["E"], im["F"]), n), facts
+            continue
+        last_awake = im
         x = im["cv"]
         # the history imposed on the module: exact for the scalar variables
         bad_hist = im["it"] != it or len(x) != nd
@@ -1155,7 +1175,7 @@ def oracle(c, impl, traj):
             if dev > bound * (1 + 1e-9) + 1e-12:
                 return ("discretisation:bound-exceeded", "step %d (it=%d, x=%s): energy %r differs from the analytic sum of all hills %r by "
                         "more than sum|W| * (exp(-1/2) sum w/(2 sigma) + exp(-23/2)) = %r" % (n, it, x, im["E"], esum(c, x, tab + pend), bound), n), facts
-        if im.get("bias") != im["E"] or (im["af"] != im["F"] and n not in alive2):
+        if im.get("bias") != im["E"] or (im["af"] != [[tsf * t for t in f_] for f_ in im["F"]] and n not in alive2):
             return ("applied:bias-output", "step %d: bias energy/applied force reported by the module (%r, %s) differ from "
                     "the bias's own (%r, %s)" % (n, im.get("bias"), im["af"], im["E"], im["F"]), n), facts
     return None, facts
@@ -1337,7 +1357,7 @@ def check_one(run, c, impl, mo, txt, rcv, o, traj, mline):
         run.dist("state_from_buffer_or_string")
     if any(e[0] == "breload" for e in c["events"]):
         run.dist("bias_level_reload")
-    for kk in ("deposits", "projections", "outside_steps", "expansions", "saves", "wt_outside", "wrapped_steps", "restarts", "rebins", "antipodal_steps", "ebmeta_deposits", "reloads", "rebins_from_grids", "bound_checks", "pmf_files", "reconfs", "hetero_steps"):
+    for kk in ("deposits", "projections", "outside_steps", "expansions", "saves", "wt_outside", "wrapped_steps", "restarts", "rebins", "antipodal_steps", "ebmeta_deposits", "reloads", "rebins_from_grids", "bound_checks", "pmf_files", "reconfs", "hetero_steps", "asleep_steps"):
         run.dist(kk, facts[kk])
     d_ = run.cov["distribution"]
     d_["bound_max_ratio"] = max(d_.get("bound_max_ratio", 0.0), facts["bound_max_ratio"])
@@ -1346,6 +1366,8 @@ def check_one(run, c, impl, mo, txt, rcv, o, traj, mline):
         run.dist("oracle:" + sig)
         run.violation(sig, text, dict(replay_d, step=n))
     # tie
+    impl_all = impl
+    impl = [im for im, t in zip(impl_all, steps_of(c)) if t[0] % c.get("tsf", 1) == 0]
     if mo is None or len(mo) != len(impl):
         run.mismatch("model-output", {"model_case": mline}, len(impl), None if mo is None else len(mo))
         return
@@ -1399,7 +1421,7 @@ def gen_replica_case(r, k):
     """two walkers sharing their hills through files: B runs first (alone in the registry), then A, which reads the
     state and the hills of B at its steps that are multiples of replicaUpdateFrequency"""
     nd = r.choice([1, 1, 2])
-    f = {"nd": nd, "use_grids": r.random() < 0.8, "p_expand": 0.0, "p_eb": 0.0, "p_restart": 0.0, "p_save": 0.0, "p_pmf": 0.0,
+    f = {"nd": nd, "use_grids": r.random() < 0.8, "p_expand": 0.0, "p_eb": 0.0, "p_restart": 0.0, "p_save": 0.0, "p_pmf": 0.0, "p_tsf": 0.0,
          "keep": False, "p_vector": 0.0, "periodic": False, "p_out": r.choice([0.1, 0.3])}
     A = gen_scn(r, "ra%s" % k, dict(f))
     B = json.loads(json.dumps(A))
